@@ -104,9 +104,21 @@ func (t *Term) smt() string {
 			b.WriteString("(" + v.Name + " " + v.S.String() + ")")
 		}
 		b.WriteString(") ")
-		if len(t.Pats) > 0 {
+		var pats [][]*Term
+		for _, p := range t.Pats {
+			ok := true
+			for _, x := range p {
+				if strings.Contains(x.Key(), "(ite ") {
+					ok = false // solvers reject patterns containing ite
+				}
+			}
+			if ok {
+				pats = append(pats, p)
+			}
+		}
+		if len(pats) > 0 {
 			b.WriteString("(! " + t.Args[0].Key())
-			for _, p := range t.Pats {
+			for _, p := range pats {
 				b.WriteString(" :pattern (")
 				for i, x := range p {
 					if i > 0 {
